@@ -8,7 +8,7 @@
    use.  Not proved (tested by the oracle, see evidence tested_only): the face/basis counts and
    closedness (each simplex of order k has k+1 faces of order k-1 and a basis of k+1 points). *)
 From Coq Require Import String ZArith Bool Arith List.
-From SV Require Import Names NamesFacts ListFacts Rep Fresh Complex Atomic RepInv Reach Homology Filtration Gen World Small Sweeps Shapes AddEffect Closed ClosedReach VInv AwbSpec VReach.
+From SV Require Import Names NamesFacts ListFacts Rep Fresh Complex Atomic RepInv Reach Homology Filtration Gen World Small Sweeps Shapes AddEffect Closed ClosedReach VInv AwbSpec VReach VSets.
 Import ListNotations.
 
 (* the invariant holds after any sequence of add / relabel / delete requests on the representation,
@@ -140,3 +140,10 @@ Theorem C01_a_simplex_is_its_basis :
                (forall p, In p (basisOf r t) <-> In p (basisOf r u)) -> t = u).
 Proof. exact a_simplex_is_its_basis. Qed.
 Print Assumptions C01_a_simplex_is_its_basis.
+(* ... and the complex is closed under non-empty subsets: every non-empty set of points of a simplex
+   carries a simplex of the complex *)
+Theorem C01_closed_under_subsets :
+  forall r, vinv r -> forall t B, containsSimplex r t = true ->
+  NoDup B -> B <> nil -> incl B (basisOf r t) -> exists u, containsSimplex r u = true /\ sameset (basisOf r u) B.
+Proof. exact closed_under_subsets. Qed.
+Print Assumptions C01_closed_under_subsets.
